@@ -104,5 +104,91 @@ def rule_guard(repo, tier):
     return res
 
 
+
+
+# ---------------------------------------------------------------- KIND (nominal dimension typing of the correctors)
+
+from ..shapes import Interp, TV, IntV, NONE, TOP, sym, lit   # noqa: E402
+
+Bt = ('batch', 'B')
+
+
+def rule_kind(repo, tier):
+    res = RuleResult('C09.KIND', 'correctors: every definition of the returned residual carries the last dimension d of R (a masked '
+                     'store whose right-hand side has last dimension 1 is a broadcast fill: the residual lost R); the returned '
+                     'Jacobian carries the parameter dimension of J', floor=4)
+    for cname in ('FastTriggs', 'Triggs'):
+        f = repo.func(COR, cname + '.forward')
+        R = TV([Bt, sym('d')])
+        J = TV([sym('Nd'), sym('k')])
+        reports = []
+        it = Interp(repo, lambda node, msg: reports.append((node, msg)))
+        stores = []
+        it.store_hook = lambda target, base, tgt, rhs, st: stores.append((target, base, tgt, rhs, st))
+        rets = it.run_function(f, {'R': R, 'J': J, 'self.func': TOP, 'self.kernel': TOP})
+        if not rets:
+            raise AnalysisError('C09.KIND: %s.forward has no analysable return path' % cname)
+        # names of the returned residual / Jacobian (to attribute masked stores)
+        from ..expr import returns_of
+        rnodes = returns_of(f.node)
+        ret_names = []
+        for r in rnodes:
+            if isinstance(r.value, ast.Tuple) and len(r.value.elts) == 2:
+                ret_names.append([_root_name(x) for x in r.value.elts])
+        for rv in rets:
+            ok_r = ok_j = None
+            if hasattr(rv, 'items') and len(rv.items) == 2:
+                r0, j0 = rv.items
+                if isinstance(r0, TV) and r0.shape:
+                    ok_r = r0.shape[-1] == sym('d')
+                if isinstance(j0, TV) and j0.shape:
+                    ok_j = j0.shape[-1] == sym('k')
+            res.inst({'function': f.fq, 'returned': repr(rv), 'residual_carries_d': ok_r, 'jacobian_carries_k': ok_j}, (f.fq, 'ret'))
+            if ok_r is False:
+                res.add(Finding('C09.KIND', f, 'returned residual has last dimension %s, not the dimension d of R' % (rv.items[0],),
+                                construct='returned residual'))
+            if ok_j is False:
+                res.add(Finding('C09.KIND', f, 'returned Jacobian has last dimension %s, not the parameter dimension of J' % (rv.items[1],),
+                                construct='returned Jacobian'))
+            if ok_r is None or ok_j is None:
+                res.unresolved += 1
+        for target, base, tgt, rhs, st in stores:
+            name = _root_name(target)
+            role = None
+            for rn in ret_names:
+                if name == rn[0]:
+                    role = 'residual'
+                elif name == rn[1]:
+                    role = 'jacobian'
+            if role is None or not isinstance(tgt, TV) or not tgt.shape:
+                continue
+            verdict = None
+            if isinstance(rhs, TV) and rhs.shape:
+                want = tgt.shape[-1]
+                if role == 'jacobian' and len(tgt.shape) >= 2 and len(rhs.shape) >= 2:
+                    verdict = not (rhs.shape[-1] == lit(1) and want != lit(1)) and not (rhs.shape[-2] == lit(1) and tgt.shape[-2] != lit(1))
+                else:
+                    verdict = not (rhs.shape[-1] == lit(1) and want != lit(1))
+            res.inst({'function': f.fq, 'store': src(target)[:40], 'role': role, 'target': repr(tgt), 'rhs': repr(rhs), 'ok': verdict},
+                     (f.fq, src(target)))
+            if verdict is False:
+                res.add(Finding('C09.KIND', f, 'masked store into the returned %s: right-hand side %s is broadcast over the '
+                                'dimension `%s` of %s - the stored value no longer depends on the individual components of R'
+                                % (role, rhs, tgt.shape[-1][1], tgt), node=st))
+    return res
+
+
+def _root_name(e):
+    while isinstance(e, (ast.Subscript, ast.Attribute, ast.Call)):
+        if isinstance(e, ast.Call):
+            if isinstance(e.func, ast.Attribute):
+                e = e.func.value
+            else:
+                return None
+        else:
+            e = e.value
+    return e.id if isinstance(e, ast.Name) else None
+
+
 def rules(repo, tier):
-    return [rule_guard(repo, tier)]
+    return [rule_guard(repo, tier), rule_kind(repo, tier)]
